@@ -144,8 +144,10 @@ structure Quirks where
       command, so a transaction's later commands see the list after a blocked client took its element). -/
   execAtomic : Bool
   /-- `wake_client` looks at the connection BEFORE popping: a request for a client that is gone, closing or no
-      longer blocked on that key is dropped, the element stays in the list and the next waiter is notified; and
-      the hang-up probe unregisters a vanished blocked client at once, not at the end of the loop iteration
+      longer blocked on that key is dropped, the element stays in the list and the next waiter is notified; a
+      client that is blocked on the key but whose peer has closed (a peek at the socket) is dropped like the
+      hang-up probe drops it; and that probe unregisters a vanished blocked client at once, not at the end of the
+      loop iteration
       (code: the element is popped first and dropped when the client turns out not to be blocked). -/
   wakeChecksClient : Bool
 deriving DecidableEq, Repr
@@ -256,7 +258,14 @@ def wakeOne (q : Quirks) (s : State) : State :=
   | [] => s
   | w :: rest =>
     let s0 : State := { s with wakeQ := rest }
-    if q.wakeChecksClient = true ∧ wakeTargetOk s0 w = false then notify w.key s0
+    if q.wakeChecksClient = true ∧ wakeTargetOk s0 w = false then
+      (if s0.store.any (keyIs w.key) then notify w.key s0 else s0)
+    else if q.wakeChecksClient = true ∧ (s0.conns w.conn).peerClosed = true then
+      -- blocked on the key, but a look at the socket shows that the peer has gone: the client is dropped as the
+      -- hang-up probe would drop it (closing, unregistered everywhere), the element stays, the next waiter's turn
+      let s1 : State := { (setBlocked s0 w.conn none) with
+        registry := (setBlocked s0 w.conn none).registry.filter fun x => x.2.conn != w.conn }
+      (if s1.store.any (keyIs w.key) then notify w.key s1 else s1)
     else
     match popElem w.op w.key s0.store with
     | none => s0
@@ -525,8 +534,8 @@ def calmReg (s : State) : Bool :=
 
 /-- * A blocked client may hang up only when the server probes blocked sockets and unregisters a vanished client at
       once (`noticeBlockedHangup`, `wakeChecksClient`), and then no batch is processed between the hang-up and that
-      probe (`reap`): what is written into a socket whose peer has vanished UNNOTICED is lost under every design
-      (`Ferrous.C13.conservation_fails_disconnect_in_flight_even_fixed`) — this window is all that stays excluded;
+      probe (`reap`) — this window is all that stays excluded (with `wakeChecksClient` the machine conserves there too,
+      `wake_client` peeking at the socket first, but the proof's invariant assumes calm batches);
     * batches as above. -/
 def eventOkF (q : Quirks) (s : State) : Event → Bool
   | .conn c now cmds =>
